@@ -24,6 +24,7 @@ import (
 	"verif/checks/c15"
 	"verif/checks/c16"
 	"verif/checks/c17"
+	"verif/checks/c18"
 	"verif/checks/c19"
 	"verif/engine/report"
 )
@@ -52,6 +53,7 @@ var checks = map[string]check{
 	"C15": {"exploration", c15.Run, c15.Replay},
 	"C16": {"exploration", c16.Run, c16.Replay},
 	"C17": {"exploration", c17.Run, c17.Replay},
+	"C18": {"model_checking", c18.Run, c18.Replay},
 	"C19": {"exploration", c19.Run, c19.Replay},
 }
 
